@@ -512,6 +512,38 @@ def install():
     _codecs.register(_search)
     _note("str.encode/bytes.decode utf-16-le, utf-32-le -> arithmetic code-unit models (surrogate pairs, truncation and range errors as the C codecs)")
 
+
+    # ---- strict codec errors without realising the input; repr() of a symbolic str -> constant
+    from crosshair.libimpl.encodings import _encutil as _eu
+    _orig_stem_encode = _eu.StemEncoder.encode.__func__
+    _orig_stem_decode = _eu.StemEncoder.decode.__func__
+
+    def _stem_encode(cls, input, errors="strict"):
+        if errors == "strict" and isinstance(input, str):
+            parts = []
+            idx = 0
+            inputlen = len(input)
+            while idx < inputlen:
+                out, idx, err = cls._encode_chunk(input, idx)
+                parts.append(out)
+                if err is not None:
+                    raise UnicodeEncodeError(cls.encoding_name, "?", 0, 1, err.reason())
+            return b"".join(parts), idx
+        return _orig_stem_encode(cls, input, errors)
+
+    _eu.StemEncoder.encode = classmethod(_stem_encode)
+    _orig_repr = _core._PATCH_REGISTRATIONS.get(repr)
+
+    def _sym_repr(obj):
+        with NoTracing():
+            symstr = isinstance(obj, AnySymbolicStr)
+        if symstr:
+            return "'<symbolic str>'"
+        return _orig_repr(obj) if _orig_repr is not None else repr(obj)
+
+    _core._PATCH_REGISTRATIONS[repr] = _sym_repr
+    _note("repr() of a symbolic str -> constant (only used in messages); strict codec errors raised without realising the input")
+
     import pycomm3.cip_driver as _cd
     _cd.urandom = lambda n: bytes([0x5A] * n)
     _note("os.urandom (cip_driver) -> fixed bytes")
